@@ -13,7 +13,7 @@ func init() {
 		ID: "C09", Level: "exploration",
 		Rule:        "differential: a seeded base history H (several snapshot transactions of different ages, a just-begun transaction that has not read yet, RU/RC readers, overwrites, deletes, commits) is run once per collector position p in 0..|H| with a collector pass + worker-pool drain inserted before step p, once with two consecutive passes at a seeded position, and once with a pass before every step; in every variant every open transaction and the autocommit caller read every key and GetKeys after every step and must equal the reference model, in which the collector does not exist; GetReader streams opened before a pass are read to the end after it. evaluations = reads compared; distinct_nontrivial = distinct (base history, position) variants in which the pass physically removed at least one content file",
 		Assumptions: []string{"reference model refmodel (collector = no-op)"},
-		Roles:       map[string]Role{"main": {N: func(t string) int { return tierN(t, 24, 400) }, Case: c09Case}},
+		Roles:       map[string]Role{"main": {N: func(t string) int { return tierN(t, 24, 1200) }, Case: c09Case}},
 	})
 }
 
